@@ -201,6 +201,67 @@ func cmdCheck(args []string) int {
 		all[i] = nr
 		lemmaReruns++
 	}
+	// float refinement: with float operations encoded as uninterpreted functions, unsat
+	// holds for every interpretation (so for IEEE floats), but sat may be an artefact
+	// of the abstraction and its model does not replay. Obligations that are sat under
+	// UF are re-decided with SMT FloatingPoint semantics: unsat = discharged, sat = a
+	// model the native run can reproduce, anything else = inconclusive.
+	fpRefined := 0
+	for _, r := range all {
+		js := jobByName0(spec.Jobs, r.Job)
+		if js == nil || !js.FloatUF || fpRefined >= 3 {
+			continue
+		}
+		var satIdx []int
+		for k, q := range r.Queries {
+			if (q.Kind == "assert" || q.Kind == "panic") && q.Status == "sat" {
+				satIdx = append(satIdx, k)
+			}
+		}
+		if len(satIdx) == 0 {
+			continue
+		}
+		fpRefined++
+		js2 := *js
+		js2.FloatUF = false
+		if js2.Timeout == 0 || js2.Timeout > 120 {
+			js2.Timeout = 120
+		}
+		nr := runInstance(loaded[js.Pkg+"|"+js.Harness], &js2, r.Params, pools, pools["z3-new"])
+		ok := nr.Err == "" && len(nr.Queries) == len(r.Queries)
+		keep := map[*QueryResult]bool{}
+		if ok {
+			for _, k := range satIdx {
+				if nr.Queries[k].Label != r.Queries[k].Label || nr.Queries[k].Kind != r.Queries[k].Kind {
+					ok = false
+				}
+				keep[nr.Queries[k]] = true
+			}
+		}
+		if !ok {
+			fmt.Printf("  %s[%s]: float refinement not possible (%s); UF verdicts kept\n", r.Job, paramStr(r.Params), nr.Err)
+			continue
+		}
+		var pend []*work
+		for _, w := range nr.pending {
+			if keep[w.qr] {
+				pend = append(pend, w)
+			}
+		}
+		nr.pending = pend
+		solveAll([]*InstanceResult{nr}, pools, 16)
+		n := map[string]int{}
+		for _, k := range satIdx {
+			nq := nr.Queries[k]
+			if nq.Status == "" {
+				nq.Status = "unknown"
+			}
+			nq.Solver += "+fp"
+			n[nq.Status]++
+			r.Queries[k] = nq
+		}
+		fmt.Printf("  %s[%s]: %d obligation(s) sat with floats as UF re-decided with FloatingPoint semantics: %v\n", r.Job, paramStr(r.Params), len(satIdx), n)
+	}
 	{
 		{
 			for _, r := range all {
